@@ -1352,6 +1352,8 @@ class _NP:
         r = self._map(f, x, *more)
         if isinstance(r, SArray):
             r.ldtype = _np.dtype("bool")
+        elif isinstance(r, bool):
+            r = _np.bool_(r)  # numpy's scalar result has .all() / .any()
         return r
 
     def log(self, x):
